@@ -47,20 +47,25 @@ class LimitGatedScheduler {
 
     template <typename F>
     void schedule(F&& fPipe) {
+      DISPENSO_VERIF_POINT("PlSchIncOut", this);
       outstanding_.fetch_add(1, std::memory_order_acq_rel);
 
       // RAII guard ensures outstanding_ is decremented even if an exception propagates.
       // Without this, wait() would hang spinning on outstanding_ reaching zero.
       struct OutstandingGuard {
         DISPENSO_INLINE ~OutstandingGuard() {
+          DISPENSO_VERIF_POINT("PlDecOut", &outstanding_);
           outstanding_.fetch_sub(1, std::memory_order_acq_rel);
         }
         std::atomic<size_t>& outstanding_;
       };
 
       if (unlimited_) {
+        DISPENSO_VERIF_POINT("PlSchUnl", this);
         tasks_.schedule([this, fPipe = std::move(fPipe)]() mutable {
+          DISPENSO_VERIF_NOTE("PlRunU", this, 0, 0);
           OutstandingGuard oGuard{outstanding_};
+          DISPENSO_VERIF_POINT("PlUnlHasExc", this);
           if (!tasks_.hasException()) {
             fPipe([]() {});
           }
@@ -69,7 +74,9 @@ class LimitGatedScheduler {
       }
 
       DISPENSO_TSAN_ANNOTATE_IGNORE_WRITES_BEGIN();
+      DISPENSO_VERIF_POINT("PlSchEnq", this);
       queue_.enqueue([this, fPipe = std::move(fPipe)]() mutable {
+        DISPENSO_VERIF_NOTE("PlRunL", this, 0, 0);
         OutstandingGuard oGuard{outstanding_};
 
         // RAII guard releases the resource slot if the completion callback is never
@@ -78,6 +85,7 @@ class LimitGatedScheduler {
         struct ResourceGuard {
           DISPENSO_INLINE ~ResourceGuard() {
             if (armed_) {
+              DISPENSO_VERIF_POINT("PlGuardRel", &resources_);
               resources_.fetch_add(1, std::memory_order_acq_rel);
             }
           }
@@ -96,6 +104,7 @@ class LimitGatedScheduler {
             rGuard.disarm();
             OnceFunction func;
             DISPENSO_TSAN_ANNOTATE_IGNORE_WRITES_BEGIN();
+            DISPENSO_VERIF_POINT("PlCbDeq", this);
             bool deqd = queue_.try_dequeue(func);
             DISPENSO_TSAN_ANNOTATE_IGNORE_WRITES_END();
             if (deqd) {
@@ -108,34 +117,43 @@ class LimitGatedScheduler {
                   InlineDepthGuard dGuard;
                   func();
                 } else {
+                  DISPENSO_VERIF_POINT("PlCbSubmit", this);
                   tasks_.schedule(std::move(func), ForceQueuingTag());
                 }
               } else {
+                DISPENSO_VERIF_POINT("PlCbSubmit", this);
                 tasks_.schedule(std::move(func));
               }
             } else {
+              DISPENSO_VERIF_POINT("PlCbRel", this);
               resources_.fetch_add(1, std::memory_order_acq_rel);
             }
           });
 #if defined(__cpp_exceptions)
         } catch (...) {
+          DISPENSO_VERIF_POINT("PlCatch", this);
           tasks_.trySetCurrentException();
         }
 #endif
       });
       DISPENSO_TSAN_ANNOTATE_IGNORE_WRITES_END();
 
+      DISPENSO_VERIF_POINT("PlSchAcq", this);
       while (resources_.fetch_sub(1, std::memory_order_acq_rel) > 0) {
         OnceFunction func;
         DISPENSO_TSAN_ANNOTATE_IGNORE_WRITES_BEGIN();
+        DISPENSO_VERIF_POINT("PlSchDeq", this);
         bool deqd = queue_.try_dequeue(func);
         DISPENSO_TSAN_ANNOTATE_IGNORE_WRITES_END();
         if (deqd) {
+          DISPENSO_VERIF_POINT("PlSchSubmit", this);
           tasks_.schedule(std::move(func));
+          DISPENSO_VERIF_POINT("PlSchAcq", this);
         } else {
           break;
         }
       }
+      DISPENSO_VERIF_POINT("PlSchRel", this);
       resources_.fetch_add(1, std::memory_order_acq_rel);
     }
 
@@ -148,27 +166,37 @@ class LimitGatedScheduler {
         // this drain starts, enqueuing new items into our local queue. Without
         // the outstanding_ check, those late-arriving items could be orphaned
         // if schedule()'s try_dequeue spuriously misses them.
+        DISPENSO_VERIF_POINT("PlWtLoadOut", this);
         while (outstanding_.load(std::memory_order_acquire)) {
+          DISPENSO_VERIF_POINT("PlWtHasExc", this);
           if (tasks_.hasException()) {
             // Drain remaining queued items without executing them.
             OnceFunction discard;
+            DISPENSO_VERIF_POINT("PlWtDiscDeq", this);
             while (queue_.try_dequeue(discard)) {
+              DISPENSO_VERIF_POINT("PlWtDiscDec", this);
               outstanding_.fetch_sub(1, std::memory_order_acq_rel);
               discard.cleanupNotRun();
+              DISPENSO_VERIF_POINT("PlWtDiscDeq", this);
             }
             break;
           }
           OnceFunction func;
           DISPENSO_TSAN_ANNOTATE_IGNORE_WRITES_BEGIN();
+          DISPENSO_VERIF_POINT("PlWtDeq", this);
           bool deqd = queue_.try_dequeue(func);
           DISPENSO_TSAN_ANNOTATE_IGNORE_WRITES_END();
           if (deqd) {
             // Spin until a resource slot is available. Check for exceptions
             // each iteration to avoid deadlocking when all pool threads have
             // finished and no one will release a resource.
+            DISPENSO_VERIF_POINT("PlWtAcq", this);
             while (resources_.fetch_sub(1, std::memory_order_acq_rel) <= 0) {
+              DISPENSO_VERIF_POINT("PlWtAcqUndo", this);
               resources_.fetch_add(1, std::memory_order_acq_rel);
+              DISPENSO_VERIF_POINT("PlWtAcqExc", this);
               if (tasks_.hasException()) {
+                DISPENSO_VERIF_POINT("PlWtAcqDec", this);
                 outstanding_.fetch_sub(1, std::memory_order_acq_rel);
                 func.cleanupNotRun();
                 goto next_item;
@@ -176,12 +204,15 @@ class LimitGatedScheduler {
               if (!tasks_.tryExecuteNext()) {
                 std::this_thread::yield();
               }
+              DISPENSO_VERIF_POINT("PlWtAcq", this);
             }
+            DISPENSO_VERIF_POINT("PlWtSubmit", this);
             tasks_.schedule(std::move(func));
           next_item:;
           } else if (!tasks_.tryExecuteNext()) {
             std::this_thread::yield();
           }
+          DISPENSO_VERIF_POINT("PlWtLoadOut", this);
         }
         return;
       }
@@ -192,30 +223,38 @@ class LimitGatedScheduler {
       // enqueue: the callback sees an empty queue and releases the resource
       // instead of chaining, leaving the item orphaned in the queue.
       // Re-checking on every iteration ensures we eventually dispatch it.
+      DISPENSO_VERIF_POINT("PlWuLoadOut", this);
       while (outstanding_.load(std::memory_order_acquire)) {
         // For the unlimited path, items are scheduled directly to CTS (not
         // queued locally). When an exception occurs, remaining items are
         // already in CTS's pool queue wrapped by packageTask — CTS::wait()
         // will drain them. Break out here to avoid spinning.
+        DISPENSO_VERIF_POINT("PlWuHasExc", this);
         if (tasks_.hasException()) {
           break;
         }
         OnceFunction func;
         DISPENSO_TSAN_ANNOTATE_IGNORE_WRITES_BEGIN();
+        DISPENSO_VERIF_POINT("PlWuDeq", this);
         bool deqd = queue_.try_dequeue(func);
         DISPENSO_TSAN_ANNOTATE_IGNORE_WRITES_END();
         if (deqd) {
           // Wait for resource to become available
+          DISPENSO_VERIF_POINT("PlWuAcq", this);
           while (resources_.fetch_sub(1, std::memory_order_acq_rel) <= 0) {
+            DISPENSO_VERIF_POINT("PlWuAcqUndo", this);
             resources_.fetch_add(1, std::memory_order_acq_rel);
             if (!tasks_.tryExecuteNext()) {
               std::this_thread::yield();
             }
+            DISPENSO_VERIF_POINT("PlWuAcq", this);
           }
+          DISPENSO_VERIF_POINT("PlWuSubmit", this);
           tasks_.schedule(std::move(func));
         } else if (!tasks_.tryExecuteNext()) {
           std::this_thread::yield();
         }
+        DISPENSO_VERIF_POINT("PlWuLoadOut", this);
       }
     }
 
@@ -381,6 +420,7 @@ class Pipe<StageClass::kGenerator, CurStage, PipeNext> {
         1, std::min(tasks_.numPoolThreads(), StageLimits<CurStage>::limit(stage_)));
     completion_ = std::make_unique<CompletionEventImpl>(static_cast<int>(numThreads));
     for (ssize_t i = 0; i < numThreads; ++i) {
+      DISPENSO_VERIF_POINT("PlGenSubmit", this);
       tasks_.schedule([this]() {
         // RAII guard ensures the completion event is signaled even if an exception
         // propagates out of pipeNext_.execute() (e.g. when ConcurrentTaskSet runs a
@@ -388,28 +428,34 @@ class Pipe<StageClass::kGenerator, CurStage, PipeNext> {
         // completion_->wait(0) because the count is never decremented.
         struct CompletionGuard {
           DISPENSO_INLINE ~CompletionGuard() {
+            DISPENSO_VERIF_POINT("PlGenDone", completion);
             if (completion->intrusiveStatus().fetch_sub(1, std::memory_order_acq_rel) == 1) {
               completion->notify(0);
             }
           }
           CompletionEventImpl* completion;
         };
+        DISPENSO_VERIF_NOTE("PlRunG", this, 0, 0);
         CompletionGuard cGuard{completion_.get()};
 
+        DISPENSO_VERIF_POINT("PlGenHasExc", this);
         while (!tasks_.hasException()) {
           auto op = stage_();
           if (!op) {
             break;
           }
           pipeNext_.execute(std::move(op.value()));
+          DISPENSO_VERIF_POINT("PlGenHasExc", this);
         }
       });
     }
   }
 
   void wait() {
+    DISPENSO_VERIF_POINT("PlWaitGen", this);
     completion_->wait(0);
     pipeNext_.wait();
+    DISPENSO_VERIF_POINT("PlWaitCts", this);
     tasks_.wait();
   }
 
@@ -429,14 +475,19 @@ class Pipe<StageClass::kSingleStage, CurStage, SinkPipe> {
   void execute() {
     size_t numThreads = std::min(tasks_.numPoolThreads(), StageLimits<CurStage>::limit(stage_));
     for (size_t i = 0; i < numThreads; ++i) {
+      DISPENSO_VERIF_POINT("PlGenSubmit", this);
       tasks_.schedule([this]() {
+        DISPENSO_VERIF_NOTE("PlRunG", this, 0, 0);
+        DISPENSO_VERIF_POINT("PlGenHasExc", this);
         while (!tasks_.hasException() && stage_()) {
+          DISPENSO_VERIF_POINT("PlGenHasExc", this);
         }
       });
     }
   }
 
   void wait() {
+    DISPENSO_VERIF_POINT("PlWaitCts", this);
     tasks_.wait();
   }
 
